@@ -12,7 +12,7 @@ EXTENDS Validity, SequencesExt, Json, IOUtils, TLCExt
 CONSTANTS MaxSize, RichM, ShardM, NShardsM,     \* the MC_MapDenote universe (sharded there)
           N, RichP, ShardP, NShardsP            \* the MC_PipelineCall universe (sharded here by description)
 
-VARIABLES mut,      \* universe part: the mutant record [op, base, req]; trace part: 0
+VARIABLES mut,      \* universe part: the mutant record [op, req] (req.prev = the valid base case); trace part: 0
           tid, l    \* trace part: trace id, next event; universe part: 0
 allvars == <<pvars, mut, tid, l>>
 
@@ -131,7 +131,7 @@ OpClauses(op) == CASE op = "rename_collision"  -> {"UniqueOutputs", "OutputNotOw
                    [] op = "unknown_storage"   -> {"KnownStorage"}
                    [] op = "executor_without_parallel" -> {"ExecutorNeedsParallel"}
 
-Mutants == UNION {UNION {{[op |-> op, base |-> b, req |-> [desc |-> m.desc, inputs |-> m.inputs, cfg |-> c]] :
+Mutants == UNION {UNION {{[op |-> op, req |-> [desc |-> m.desc, inputs |-> m.inputs, cfg |-> c, prev |-> b]] :
                               m \in Apply(op, b), c \in CfgsFor(op)} : op \in Ops} : b \in Bases}
 
 ---------------------------------------------------------------------------
@@ -142,7 +142,8 @@ MSpec == MInit /\ [][MNext]_allvars
 
 AtStart   == pc = "Construct"
 AtSecond  == pc = "CheckExecutorParallel" \/ (pc = "rejected" /\ calls = 0 /\ disk = PrevDisk)   \* evaluated by the workers
-BaseReq   == [desc |-> mut.base.desc, inputs |-> mut.base.inputs, cfg |-> Cfg("file_array", mut.req.cfg.cleanup, TRUE)]
+BaseReq   == [desc |-> mut.req.prev.desc, inputs |-> mut.req.prev.inputs, cfg |-> Cfg("file_array", mut.req.cfg.cleanup, TRUE),
+              prev |-> mut.req.prev]
 LawBaseValid  == AtSecond => Valid(BaseReq)
 LawConj       == AtSecond => (Valid(mut.req) <=> ValidConj(mut.req))
 LawOpClause   == AtSecond => FirstViolated(mut.req) \in OpClauses(mut.op) \cup {"none"}
@@ -152,35 +153,38 @@ InvNoCodeBeforeAccept == NoCodeBeforeAccept
 InvOnlyReject         == OnlyReject
 InvValidAccepted      == ValidAccepted
 (* a mutant that is not valid ends rejected, a valid one returned (end states are the only states without successor) *)
-InvEnds == (pc = "rejected" => ~Valid(req)) /\ (pc = "returned" => Valid(req))
+InvEnds == (pc = "rejected" => (~Valid(req) \/ ~Continues(req))) /\ (pc = "returned" => Valid(req))
 Stage(v) == IF v \in ConstructionClauses THEN "construct" ELSE IF v = "none" THEN "none" ELSE "map"
 Emit == ~AtStart \/
         LET v == FirstViolated(mut.req) IN
         IF v = "none" THEN PrintT(<<"STAYED_VALID", ToJson([op |-> mut.op])>>)
-        ELSE PrintT(<<"CASE", ToJson([op |-> mut.op, base |-> mut.base, req |-> mut.req, violated |-> v, stage |-> Stage(v)])>>)
+        ELSE PrintT(<<"CASE", ToJson([op |-> mut.op, req |-> mut.req, violated |-> v, stage |-> Stage(v)])>>)
 
 ---------------------------------------------------------------------------
-(* trace part: {desc, inputs, cfg, ev: [{e: "outcome", outcome: "rejected"|"returned", calls: Nat, folder_changed: BOOLEAN}]} *)
+(* trace part: {desc, inputs, cfg, prev, ev: [{e: "outcome", outcome: "rejected"|"returned", calls: Nat, folder_changed: BOOLEAN}]} *)
 Traces == IF "TRACE_FILE" \in DOMAIN IOEnv THEN ndJsonDeserialize(IOEnv.TRACE_FILE) ELSE <<>>
 NT == Len(Traces)
 ASSUME \A i \in 1..NT : TLCSet(i, 0)
 T  == Traces[tid]
 Ev == T.ev[l]
-Init == tid \in 1..NT /\ l = 1 /\ mut = 0 /\ PrepareInit([desc |-> T.desc, inputs |-> T.inputs, cfg |-> T.cfg])
+ReqOf(t) == [desc |-> t.desc, inputs |-> t.inputs, cfg |-> t.cfg, prev |-> t.prev]
+Init == tid \in 1..NT /\ l = 1 /\ mut = 0 /\ PrepareInit(ReqOf(T))
 (* the unlogged steps of the machine *)
 TStep == PrepareNext /\ UNCHANGED <<mut, tid, l>>
-(* the recorded outcome is the end state of the machine: same verdict; user code ran only if accepted; a rejection     *)
-(* left a folder opened with cleanup=False as it was                                                                  *)
+(* the recorded outcome is the end state of the machine: same verdict; no user code ran before a rejection (a run that   *)
+(* continues a complete previous run may return without calling anything: C05); a rejection left a folder opened with  *)
+(* cleanup=False as it was                                                                                             *)
 TOutcome == /\ l <= Len(T.ev) /\ Ev.e = "outcome" /\ l' = l + 1 /\ UNCHANGED <<mut, tid, pvars>>
             /\ pc \in {"rejected", "returned"}
             /\ Ev.outcome = pc
-            /\ (Ev.calls = 0) = (calls = 0)
+            /\ pc = "rejected" => Ev.calls = 0
             /\ (pc = "rejected" /\ ~req.cfg.cleanup) => ~Ev.folder_changed
 Next == TStep \/ TOutcome
 Spec == Init /\ [][Next]_allvars
 Track == IF l > TLCGet(tid) THEN TLCSet(tid, l) ELSE TRUE
 (* the verdict of the specification for a trace, printed with every rejection for the report *)
-VerdictOf(i) == FirstViolated([desc |-> Traces[i].desc, inputs |-> Traces[i].inputs, cfg |-> Traces[i].cfg])
+VerdictOf(i) == LET v == FirstViolated(ReqOf(Traces[i])) IN
+                IF v = "none" /\ ~Continues(ReqOf(Traces[i])) THEN "NotThePreviousRun" ELSE v
 Accepted == \A i \in 1..NT : (TLCGet(i) = Len(Traces[i].ev) + 1)
                               \/ (PrintT(<<"REJECT", i, TLCGet(i)>>) /\ PrintT(<<"VERDICT", i, VerdictOf(i)>>))
 =============================================================================
